@@ -251,6 +251,22 @@ func Unravel(k int, lin Poly, shape []Poly) Poly {
 	if c, ok := shape[k].Const(); ok && c == 1 {
 		return PInt(0)
 	}
+	// fully concrete: compute the component
+	if lv, ok := lin.Const(); ok {
+		stride := int64(1)
+		allC := true
+		for i := len(shape) - 1; i > k; i-- {
+			d, ok := shape[i].Const()
+			if !ok || d <= 0 {
+				allC = false
+				break
+			}
+			stride *= d
+		}
+		if d, ok := shape[k].Const(); ok && allC && d > 0 {
+			return PInt((lv / stride) % d)
+		}
+	}
 	var sb strings.Builder
 	fmt.Fprintf(&sb, "unr⟨%d|%s|", k, lin.String())
 	for i, x := range shape {
